@@ -20,6 +20,14 @@ def main():
     seed = f"/tmp/seed_{pid}/SEED"
     patch = f"{seed}/{letter}.diff"
     demo = f"{seed}/{letter}_demo.rs"
+    kept = f"/verif/seeded/{pid}-{letter}"
+    notes_text = None
+    if not os.path.exists(patch) and os.path.exists(f"{kept}/patch.diff"):
+        # re-run of a seed that is already kept
+        shutil.copy(f"{kept}/patch.diff", f"/tmp/_seed_patch_{pid}{letter}.diff")
+        shutil.copy(f"{kept}/demo.rs", f"/tmp/_seed_demo_{pid}{letter}.rs")
+        patch, demo = f"/tmp/_seed_patch_{pid}{letter}.diff", f"/tmp/_seed_demo_{pid}{letter}.rs"
+        notes_text = json.load(open(f"{kept}/meta.json")).get("what_it_needs", "")
     wt = f"/tmp/confirm_{pid}_{letter}"
     sh(f"git -C /repo worktree remove --force {wt}")
     rc, out = sh(f"git -C /repo worktree add --detach {wt} HEAD")
@@ -63,13 +71,13 @@ def main():
                 r = json.load(open(replay.group(1)))
                 checks[prop]["replay"] = {k: r.get(k) for k in ("kind", "input", "detail", "no_longer_checks") if k in r}
                 if isinstance(checks[prop]["replay"].get("no_longer_checks"), list):
-                    checks[prop]["replay"]["no_longer_checks"] = [x[:300] for x in checks[prop]["replay"]["no_longer_checks"][:3]]
+                    checks[prop]["replay"]["no_longer_checks"] = [x[:300] for x in checks[prop]["replay"]["no_longer_checks"][:6]]
             print(prop, tier, "exit", rc, "|", " || ".join(v[:200] for v in viol[:2]))
     finally:
         sh("git -C /repo checkout -- .")
         sh("rm -rf /verif/replays")
     meta["checks"] = checks
-    meta["what_it_needs"] = open(f"{seed}/notes.md").read()[:6000] if os.path.exists(f"{seed}/notes.md") else ""
+    meta["what_it_needs"] = notes_text if notes_text is not None else (open(f"{seed}/notes.md").read()[:6000] if os.path.exists(f"{seed}/notes.md") else "")
     meta["ran"] = [f"cargo test --offline --features serde --test seed_demo (without / with the change)", "cargo test --offline (with the change)",
                    f"git -C /repo apply patch.diff; ./check {pid} quick[/thorough]; git -C /repo checkout -- ."]
     dst = f"/verif/seeded/{pid}-{letter}"
